@@ -8,6 +8,7 @@ from common import *
 
 NAME = 'c11_clamp'
 BUILDER = 'src/rpm/builder.rs'
+PAY = 'src/rpm/payload.rs'
 LT = (re.compile(r'if ([A-Za-z_][\w.]*) < ([A-Za-z_][\w.]*) =>'), r'if ts_lt(\1, \2) =>', None, 'R11-derived PartialOrd on Timestamp')
 
 PARTS = [Prelude('head.rs')] + [
@@ -120,6 +121,54 @@ where
             r.hashed_subpackets@[0].data == SubpacketData::SignatureCreationTime(DateTime { secs: t.0 as i64 }),''',
           tail='\n        sig_cfg'),
     Raw('''}
+// ---- the cpio entry header of each file: its modification-time field -------------------------------
+/// stand-ins for what the entry statement of `prepare_data` touches besides the payload builder
+#[derive(Clone, Copy)]
+pub struct FileMode { pub raw: u16 }
+impl FileMode {
+    #[verifier::external_body]
+    pub fn into(self) -> (r: u32) { unimplemented!() }
+}
+impl Timestamp {
+    /// `impl From<Timestamp> for u32`: the second count
+    #[verifier::external_body]
+    pub fn into(self) -> (r: u32) ensures r == self.0 { unimplemented!() }
+}
+pub struct CpioFile { pub mode: FileMode, pub modified_at: Timestamp }
+pub struct CpioOwner { pub source_date: Option<Timestamp>, pub uid: Option<u32>, pub gid: Option<u32> }
+pub mod payload {
+    use super::*;
+'''),
+    Decl(PAY, 'struct', 'Builder'),
+    Raw('''
+    /// the entry writer remembers the header fields it was made from (V:c07_header:Builder::into_header turns
+    /// them into the 110 header bytes, the mtime among them)
+    pub struct Writer { pub fields: Ghost<Builder> }
+    #[verifier::external_body]
+    pub fn str_to_string(s: &str) -> (r: String) ensures r@ == s@ { s.to_string() }
+    impl Builder {
+        #[verifier::external_body]
+        pub fn write_cpio<W>(self, w: W, file_size: u32) -> (r: Writer) ensures r.fields@ == self { unimplemented!() }
+'''),
+    Fn(PAY, 'new', impl='impl Builder', subs=[ret(), ('name.to_string()', 'str_to_string(name)', 1, 'A-STR: to_string copies the characters')],
+       spec='    ensures r.mtime == 0, r.name@ == name@,'),
+] + [Fn(PAY, f, impl='impl Builder', subs=[ret()] + mut_self(),
+        spec='    ensures r == (Builder { %s: %s, ..self }),' % (f, f)) for f in ('ino', 'mode', 'uid', 'gid', 'nlink', 'mtime')] + [
+    Raw('''    }
+}
+impl CpioOwner {
+'''),
+    Block(BUILDER, 'prepare_data', impl='impl PackageBuilder', exclusive=True,
+          start='            if !uses_large_files {\n', end='                writer.write_all(&content)?;',
+          subs=[(re.compile(r'\A'), '        let mut archive = archive0;\n', 1, 'block prologue: the archive writer is a mutable local of prepare_data')],
+          header='''    /// the statement that makes the cpio entry header of a file; `mtime` is the clamped time of c11_mtime, and
+    /// `entry.modified_at` the file's own: whichever the code uses, the entry must not carry a time later than the source date
+    pub fn c11_cpio_mtime<W>(&self, entry: &CpioFile, mtime: Timestamp, cpio_path: &str, ino_index: u32, archive0: W, content: &Vec<u8>) -> (r: payload::Writer)
+        requires clamped(self.source_date, entry.modified_at, mtime),
+        ensures
+            self.source_date is Some ==> r.fields@.mtime <= self.source_date->Some_0.0,''',
+          tail='\n                writer'),
+    Raw('''}
 // vacuity canary: must FAIL
 pub fn canary_c11(b: &PackageBuilder, now: Timestamp)
 {
@@ -130,5 +179,6 @@ pub fn canary_c11(b: &PackageBuilder, now: Timestamp)
 ] + TAIL
 
 OBLIGATIONS = {'PackageBuilder::c11_mtime': ['C11'], 'PackageBuilder::c11_build_time': ['C11'], 'PackageBuilder::c11_signature_time': ['C11'],
-               'Signer::c11_sig_creation_time': ['C11']}
+               'Signer::c11_sig_creation_time': ['C11'], 'CpioOwner::c11_cpio_mtime': ['C11'],
+               'payload::Builder::new': ['C11'], 'payload::Builder::mtime': ['C11']}
 CANARIES = ['canary_c11']
